@@ -1350,7 +1350,7 @@ Qed.
 Module Ex.
   (** genesis 0; main chain 1-2-3; a heavier fork 4-5-6 from block 1 whose third block (6)
       has an invalid body; 7 is a valid sibling of 6; 8 has an invalid header; 9 is a very
-      heavy valid child of 4. *)
+      heavy valid child of 4; 10 is a heavier valid sibling of 3. *)
   Definition U : universe := list_to_map [
     (0, Blk 0 0 true false true 0 10);
     (1, Blk 0 1 true false true 10 10);
@@ -1361,7 +1361,8 @@ Module Ex.
     (6, Blk 5 4 true false false 45 10);
     (7, Blk 5 4 true false true 44 10);
     (8, Blk 3 4 false false true 99 10);
-    (9, Blk 4 3 true false true 100 10) ].
+    (9, Blk 4 3 true false true 100 10);
+    (10, Blk 2 3 true false true 50 10) ].
 
   Example U_wf : WF U.
   Proof. apply wfb_sound. vm_compute. reflexivity. Qed.
